@@ -110,3 +110,7 @@ impl WriteBackend for HotColdBackend {
         Ok(())
     }
 }
+
+#[cfg(kani)]
+#[path = "/verif/harness/backend_hotcold.rs"]
+pub(crate) mod verif_harness;
